@@ -123,7 +123,9 @@ void StatusPrinter::BuildEdgeStarted(const Edge* edge,
   if (edge->use_console() || printer_.is_smart_terminal())
     PrintStatus(edge, start_time_millis);
 
-  if (edge->use_console())
+  // Nothing runs in a dry run, so nothing owns the console: locking it would
+  // only coalesce the status lines of the edges "finishing" meanwhile.
+  if (edge->use_console() && !config_.dry_run)
     printer_.SetConsoleLocked(true);
 }
 
